@@ -260,7 +260,91 @@ def run(tier, seed):
             if not same(back, mdec[i]) or ("ok" in back and canon(back["ok"]) != canon(mdec[i].get("ok"))):
                 case["impl"], case["model"] = back, mdec[i]
                 run.fail(case, "correspondence: reading through the logical schema differs from the model", kind="correspondence")
+    positions_and_reader_annotations(run, cases, results, seed, tier)
     return run.finish()
+
+
+def positions_and_reader_annotations(run, cases, results, seed, tier):
+    """(a) the same logical type at every position of a schema — defined once and then referred to BY NAME (named fixed),
+    as array items, map values, union branch, nested record field — converts exactly as it does on its own;
+    (b) reading with a reader schema that differs from the writer's only in its logical annotation (other precision /
+    scale, or none on the reader side... the converters are keyed by the WRITER's annotation): same value."""
+    import copy
+    rnd = random.Random(seed * 16127 + 3)
+    done = 0
+    for i, (s, v, kind, exp) in enumerate(cases):
+        if done >= scale(tier, 120) or "bytes" not in results[i]:
+            continue
+        if rnd.random() < 0.5:
+            continue
+        done += 1
+        try:
+            alone = fastavro.schemaless_reader(io.BytesIO(bytes.fromhex(results[i]["bytes"])), fastavro.parse_schema(dict(s)))
+        except Exception:
+            continue
+        named = s.get("type") == "fixed"
+        first = dict(s) if not named else dict(s)
+        ref = s["name"] if named else dict(s)
+        wrap = {"type": "record", "name": "Pos", "fields": [
+            {"name": "first", "type": first},
+            {"name": "again", "type": copy.deepcopy(ref)},
+            {"name": "items", "type": {"type": "array", "items": copy.deepcopy(ref)}},
+            {"name": "opt", "type": ["null", copy.deepcopy(ref)]},
+            {"name": "inner", "type": {"type": "record", "name": "Inner", "fields": [{"name": "x", "type": copy.deepcopy(ref)}]}},
+            {"name": "m", "type": {"type": "map", "values": copy.deepcopy(ref)}}]}
+        datum = {"first": v, "again": v, "items": [v, v], "opt": v, "inner": {"x": v}, "m": {"k": v}}
+        case = {"schema": wrap, "value": to_wire(v), "kind": kind, "tags": [kind, "positions"]}
+        run.count(case, True, ["positions"])
+        try:
+            fo = io.BytesIO()
+            fastavro.schemaless_writer(fo, copy.deepcopy(wrap), datum)
+            back = fastavro.schemaless_reader(io.BytesIO(fo.getvalue()), copy.deepcopy(wrap))
+            co = io.BytesIO()
+            fastavro.writer(co, copy.deepcopy(wrap), [datum])
+            back2 = list(fastavro.reader(io.BytesIO(co.getvalue())))[0]
+        except Exception as e:  # noqa
+            run.fail(dict(case, error=repr(e)[:200]), "a value its logical type accepts on its own is rejected at another position of a schema", kind="oracle")
+            continue
+        want = {"first": alone, "again": alone, "items": [alone, alone], "opt": alone, "inner": {"x": alone}, "m": {"k": alone}}
+        if back != want or back2 != want:
+            bad = [k for k in want if back.get(k) != want[k] or back2.get(k) != want[k]]
+            run.fail(dict(case, positions=bad, read=repr({k: back.get(k) for k in bad})[:300], alone=repr(alone)),
+                     "a logical value reads back differently at another position of a schema (by-name reference, array, map, union, nested record)",
+                     kind="oracle")
+            continue
+        # (b) reader schema with another annotation
+        lt = s.get("logicalType")
+        variants = []
+        if lt == "decimal":
+            for dp, ds in ((0, 2), (-1, 0), (3, -1), (0, -s.get("scale", 0))):
+                r2 = dict(s)
+                r2["precision"] = max(1, s["precision"] + dp)
+                r2["scale"] = max(0, min(r2["precision"], s.get("scale", 0) + ds))
+                if r2["type"] == "fixed":
+                    continue    # precision is bounded by the size; keep the reader schema parseable
+                variants.append(r2)
+        plain_r = {k: x for k, x in s.items() if k not in ("logicalType", "precision", "scale")}
+        if s.get("type") != "fixed":
+            variants.append(plain_r["type"] if list(plain_r) == ["type"] else plain_r)
+        for r2 in variants:
+            if r2 == s:
+                continue
+            w1 = {"type": "record", "name": "One", "fields": [{"name": "v", "type": dict(s)}]}
+            r1 = {"type": "record", "name": "One", "fields": [{"name": "v", "type": copy.deepcopy(r2)}]}
+            try:
+                fo = io.BytesIO()
+                fastavro.schemaless_writer(fo, copy.deepcopy(w1), {"v": v})
+                got = fastavro.schemaless_reader(io.BytesIO(fo.getvalue()), copy.deepcopy(w1), copy.deepcopy(r1))
+            except Exception as e:  # noqa
+                run.tag("reader-annotation:rejected")
+                continue
+            run.cov["evaluations"] += 1
+            run.tag("reader-annotation")
+            if got != {"v": alone}:
+                run.fail(dict(case, schema=w1, reader_schema=r1, read=repr(got), alone=repr(alone), tags=[kind, "reader-annotation"]),
+                         "reading with a reader schema that differs only in the logical annotation changes the value (converters are keyed by the writer's annotation)",
+                         kind="oracle")
+                break
 
 
 def read_exact(ps, hexbytes):
